@@ -109,6 +109,20 @@ theorem root_squares_back {d : ℕ} (U : Matrix (Fin d) (Fin d) ℝ) (s : Fin d 
       = U * Matrix.diagonal s * Uᵀ :=
   root_squares_back' U s hU hs
 
+open Matrix in
+/-- **C14 `root_squares_back`, on the model**: the list-level root `rootFromEig` (what the driver executes) of an
+oracle decomposition with `UᵀU = I`, `s ≥ 0`, read as a matrix, squares back to `U·diag(s)·Uᵀ`. -/
+theorem root_model_squares_back {d : ℕ} (U : Matrix (Fin d) (Fin d) ℝ) (s : Fin d → ℝ) (hU : Uᵀ * U = 1)
+    (hs : ∀ i, 0 ≤ s i) :
+    let R : Matrix (Fin d) (Fin d) ℝ :=
+      fun i j => entry (rootFromEig (List.ofFn fun a => List.ofFn (U a)) (List.ofFn s)) i j
+    R * R = U * Matrix.diagonal s * Uᵀ := by
+  intro R
+  have hR : R = U * Matrix.diagonal (fun i => Real.sqrt (s i)) * Uᵀ := by
+    ext i j; exact rootFromEig_entry U s hs i j
+  rw [hR]
+  exact root_squares_back' U s hU hs
+
 /-- Diagonal analogue: the entrywise root of a non-negative vector squares back to it. -/
 theorem root_squares_back_diag (m : List ℝ) (h : ∀ x ∈ m, 0 ≤ x) : (rootDiag m).map (fun x => x * x) = m :=
   rootDiag_squares m h
